@@ -98,6 +98,15 @@ def step (s : St) (op : List String) (impl : String) : LineOut St :=
       let (s2, m) := monitor s1 impl
       { state := s2, model := some (joinOut (showE ds)), monitor := m }
     | none => { state := s, model := some "bad-op" }
+  | ["plant", _] =>
+    -- a restart that finds a left-over <snapshot>.compact beside the complete snapshot: same as a plain restart
+    -- (NewSnapshotter uses the compacted file only when the snapshot itself is missing; C11 covers that path)
+    let ce := witness 1#64 s.lastE
+    let cq := witness 1#64 s.lastQ
+    let s' := { s with ev := Buf.start s.n ce (s.lastE + BitVec.ofNat 64 Gen.RestartCutoff.event.minOffset),
+                       qu := Buf.start s.q cq (s.lastQ + BitVec.ofNat 64 Gen.RestartCutoff.query.minOffset),
+                       cutE := some s.seenE, cutQ := some s.seenQ }
+    { state := s', model := some s!"clocks {ce.toNat} {cq.toNat}" }
   | ["restart"] =>
     let ce := witness 1#64 s.lastE
     let cq := witness 1#64 s.lastQ
